@@ -9,7 +9,7 @@ import functools
 import itertools
 import re
 from collections import defaultdict
-from dataclasses import dataclass
+from dataclasses import dataclass, field
 from typing import TYPE_CHECKING
 
 import numpy as np
@@ -110,7 +110,7 @@ class MapSpec:
 
     inputs: tuple[ArraySpec, ...]
     outputs: tuple[ArraySpec, ...]
-    _is_generated: bool = False
+    _is_generated: bool = field(default=False, compare=False)
 
     def __post_init__(self) -> None:
         if any(x is None for x in self.outputs[0].axes):
